@@ -56,11 +56,11 @@ class ForeignGen:
         if k < 0.22:
             return r.choice([True, False])
         if k < 0.30:
-            return r.choice([0, 7, -3, 10 ** 15])           # raw JSON number
+            return r.choice([0, 7, -3, 10 ** 15, 2 ** 31, -2 ** 31 - 1, 2 ** 63, 2 ** 64, -2 ** 63 - 1, 10 ** 30 + 7])   # raw JSON number (any width)
         if k < 0.36:
             return r.choice([0.5, 1e-3, 2.25])
         if k < 0.46:
-            return {"$": r.choice([5, -1, 2 ** 40]), "type": r.choice(["xsd:int", "xsd:long"])}
+            return {"$": r.choice([5, -1, 2 ** 40, 2 ** 63, 2 ** 70 + 1]), "type": r.choice(["xsd:int", "xsd:long"])}
         if k < 0.54:
             return {"$": str(r.choice([5, -1, 123456789012])), "type": r.choice(["xsd:int", "xsd:long"])}
         if k < 0.60:
